@@ -10,7 +10,7 @@ input : stdin if it is a FIFO, else the last argument if it names a readable fil
         the linker role concatenates every argument that names a regular file (except -o's).
 output: the value of the last "-o", else stdout.
 
-VF_FAULT = "role:k:mode;..."   mode: exit-before | exit-half | exit-after | segv | kill | segv-before
+VF_FAULT = "role:k:mode;..."   mode: exit-before | exit-half | exit-after | segv | kill | term | segv-before
 VF_DELAY = "role:k:startms:endms;..."  sleep before reading / before exiting
 VF_PAD   = N   pad the output with N bytes (to overflow pipe buffers)
 */
@@ -252,7 +252,7 @@ main(int argc, char *argv[])
 		}
 	}
 	half = tlen / 2;
-	if (strcmp(mode, "exit-half") == 0 || strcmp(mode, "kill") == 0) {
+	if (strcmp(mode, "exit-half") == 0 || strcmp(mode, "kill") == 0 || strcmp(mode, "term") == 0) {
 		writeall(outfd, total, half);
 		logf_("wrote %zu\n", half);
 		if (endms)
@@ -260,6 +260,8 @@ main(int argc, char *argv[])
 		logf_("done %s\n", mode);
 		if (strcmp(mode, "kill") == 0)
 			raise(SIGKILL);
+		if (strcmp(mode, "term") == 0)
+			raise(SIGTERM);
 		return 1;
 	}
 	if (writeall(outfd, total, tlen) < 0) {
